@@ -8,7 +8,8 @@ META = {
                    "edge is_open()==true of that same entry and on the not-expired edge of `entry.at < Instant::now() - idle_timeout` "
                    "(comparator orientation normalised, threshold provenance checked, zero/None timeout disables expiry only); PoolInner::pop "
                    "returns only what that filter yielded; (P2) the only hand-back sites are guarded by is_open()==true of the pushed connection; "
-                   "(C02.1) HttpConnection::is_open returns the matching hyper sender's is_ready(); (P1) the idle list has one entrance, which timestamps with Instant::now().",
+                   "(C02.1) HttpConnection::is_open returns the matching hyper sender's is_ready(); (P1) the idle list has one entrance, which timestamps with Instant::now()."
+                   " As built now: P5 is a decision table (idletable.py): IdleConnections::pop is evaluated abstractly on idle lists of up to three entries (open / closed x older / newer than the cut-off) x timeout (none / zero / positive) over a symbolic order of instants and durations - 159 scenarios: whatever is handed out is open, unexpired and leaves the list; for push-ordered lists the answer equals the specification's. P4's can_share / reuse are tables over the connection variant.",
     "trusted_base": ["rustc type/borrow checker", "std::time::Instant monotonic", "hyper SendRequest::is_ready reflects closure of the connection"],
     "assumptions": ["a connection closing between the check and its use is excluded by the property itself"],
     "undecided": "monotonic-clock behaviour, actual elapsed time; a connection closing after the check",
